@@ -2,6 +2,10 @@
 //! tree on every run) and prints one JSON line per case: the input and the implementation's
 //! canonicalised observation, both also as a Coq term for the model side.
 mod common;
+mod alloc_audit;
+
+#[global_allocator]
+static GLOBAL: alloc_audit::Recorder = alloc_audit::Recorder;
 mod c16;
 mod c13;
 mod c08;
@@ -12,6 +16,7 @@ mod c03;
 mod c14;
 mod c06;
 mod c19;
+mod c18;
 mod c10;
 
 fn main() {
@@ -73,6 +78,7 @@ fn generate(prop: &str, seed: u64, thorough: bool) -> Vec<serde_json::Value> {
         "C14" => c14::generate(seed, thorough),
         "C06" => c06::generate(seed, thorough),
         "C19" => c19::generate(seed, thorough),
+        "C18" => c18::generate(seed, thorough),
         "C10" => c10::generate(seed, thorough),
         other => { eprintln!("unknown property {}", other); std::process::exit(2); }
     }
@@ -90,6 +96,7 @@ fn run_case(prop: &str, id: usize, input: &serde_json::Value) {
         "C14" => c14::run_case(id, input),
         "C06" => c06::run_case(id, input),
         "C19" => c19::run_case(id, input),
+        "C18" => c18::run_case(id, input),
         "C10" => c10::run_case(id, input),
         other => { eprintln!("unknown property {}", other); std::process::exit(2); }
     }
